@@ -104,9 +104,11 @@ func (r DIDKeyResolver) baseUrl(doc *did.Document) (baseUrl *string) {
 		if reflect.ValueOf(ctx).Kind() == reflect.Map {
 			m := ctx.(map[string]interface{})
 			if val, ok := m["@base"]; ok {
-				valStr := val.(string)
-				baseUrl = &valStr
-				break
+				// @base comes from a (remote) DID document: ignore it when it is not a string
+				if valStr, ok := val.(string); ok {
+					baseUrl = &valStr
+					break
+				}
 			}
 
 		}
